@@ -36,7 +36,17 @@ ParsedCases ==
        ver |-> <<771, 65277, 769>>[(q % 3) + 1], random |-> r, sid |-> Sids[((w + q) % 3) + 1],
        ciphers |-> IF q % 3 = 2 THEN <<CiphLists[3][((w + q) % 12) + 1]>> ELSE CiphLists[((w + q) % 4) + 1],
        comp |-> IF q % 3 = 2 THEN <<(w * q) % 256>> ELSE Comps[((w + q) % 3) + 1], ext |-> Exts[((w + q) % 3) + 1]]]])
-Cases == NewCases \o ParsedCases
+(* every 16-bit id through the accessors' lookup: two constructed hellos advertising all 65536 ids, and a ServerHello per listed id *)
+AllIdCases ==
+  [h \in 1..2 |-> [kind |-> "new_client_hello", ver |-> 771, random |-> Rand(3, 32), sid |-> None,
+                    ciphers |-> [j \in 1..32768 |-> (h - 1) * 32768 + j - 1], comp |-> <<0>>, ext |-> None]]
+ListedIds == {k \in 0..65535 : Hex4(k) \in Listed}
+ListedSeq == SetToSeq(ListedIds \cup {k + 1 : k \in ListedIds} \cup {65535})
+ServerIdCases ==
+  [q \in 1..Len(ListedSeq) |-> [kind |-> "new_server_hello", ver |-> 771, random |-> Rand(2, 32), sid |-> None,
+                                 ciphers |-> <<ListedSeq[q] % 65536>>, comp |-> <<0>>, ext |-> None]]
+ASSUME TLCSet(1, NewCases \o ParsedCases \o AllIdCases \o ServerIdCases)
+Cases == TLCGet(1)
 N == Len(Cases)
 
 VARIABLE i
